@@ -212,15 +212,24 @@ func C03(c *Ctx) {
 			Args: []int{sh[0], sh[1]}, Replay: ReplaySpec{Kind: "repo", PkgDirs: []string{"LALR"}}})
 	}
 	// base sets of size 3 with spare capacity / empty base sets: aliasing between result sets
-	sized := [][3]int{{4, 3, 1003}}
+	sized := [][3]int{{4, 3, 1003}, {3, 3, 113}, {3, 3, 311}}
 	if c.Thorough() {
-		sized = append(sized, [3]int{4, 4, 1003}, [3]int{5, 4, 11003})
+		sized = append(sized, [3]int{4, 4, 1003}, [3]int{5, 4, 11003}, [3]int{4, 4, 1133}, [3]int{4, 4, 3311}, [3]int{4, 3, 5121})
 	}
 	for _, sh := range sized {
 		c.RunSym(SymJob{Name: fmt.Sprintf("digraph n=%d E=%d sizes=%d", sh[0], sh[1], sh[2]), Eng: eng, PkgPath: RepoModule + "/LALR", Entry: "VerifDigraphSized",
 			Args: []int{sh[0], sh[1], sh[2]}, Replay: ReplaySpec{Kind: "repo", PkgDirs: []string{"LALR"}}})
 	}
-	c.NeedCovers("cycle", "acyclic")
+	// two chained closures (Read -> Follow): the second run appends to result sets of the first
+	chains := [][4]int{{3, 2, 2, 333}, {3, 2, 2, 131}}
+	if c.Thorough() {
+		chains = append(chains, [4]int{3, 3, 2, 333}, [4]int{3, 2, 3, 333}, [4]int{4, 2, 2, 1133}, [4]int{3, 2, 2, 303}, [4]int{4, 2, 2, 2213})
+	}
+	for _, sh := range chains {
+		c.RunSym(SymJob{Name: fmt.Sprintf("digraph chain n=%d E1=%d E2=%d sizes=%d", sh[0], sh[1], sh[2], sh[3]), Eng: eng, PkgPath: RepoModule + "/LALR", Entry: "VerifDigraphChain",
+			Args: []int{sh[0], sh[1], sh[2], sh[3]}, Replay: ReplaySpec{Kind: "repo", PkgDirs: []string{"LALR"}}})
+	}
+	c.NeedCovers("cycle", "acyclic", "cycle in the second relation")
 }
 
 func c03One(c *Ctx, s *corpus.Spec, r YRes, dir string) {
